@@ -55,6 +55,15 @@ type Block struct {
 	Txs    []*Tx
 }
 
+func (b *Block) hasLogs() bool {
+	for _, t := range b.Txs {
+		if len(t.Logs) > 0 {
+			return true
+		}
+	}
+	return false
+}
+
 // Chain invariant: Blocks[i].Num == uint64(i); Blocks[0] is genesis.
 type Chain struct{ Blocks []*Block }
 
@@ -295,6 +304,9 @@ func (c *Chain) appendSpecs(specs []BlockSpec, salt uint64) {
 				tx.Traces = append(tx.Traces, tr.clone())
 			}
 			b.Txs = append(b.Txs, tx)
+		}
+		if !b.hasLogs() {
+			b.Bloom = make([]byte, 256) // as real nodes: the logs bloom of a block without logs has no bit set
 		}
 		c.Blocks = append(c.Blocks, b)
 	}
